@@ -45,6 +45,7 @@ CHECKS = {
             rapid("decoder", "TestC15Decoder", 200000, 5000000, qshards=4, tshards=14),
             rapid("grammar", "TestC15Grammar", 80000, 1500000, qshards=4, tshards=14),
             rapid("muxer", "TestC15Muxer", 400, 12000, qshards=4, tshards=14, shrinktime="30s"),
+            rapid("muxer-ll", "TestC15LL", 200, 6000, qshards=4, tshards=14, shrinktime="30s"),
             fuzz("fuzz-media", "FuzzC15Media", 150),
             fuzz("fuzz-multi", "FuzzC15Multi", 100),
             fuzz("fuzz-any", "FuzzC15Any", 100),
